@@ -1,5 +1,6 @@
 mod gen;
 mod ops;
+mod ops_access;
 mod props;
 mod rng;
 mod wire;
